@@ -3,11 +3,13 @@ import FCA.Model.Galois
 import FCA.Model.Lindig
 import FCA.Model.Lattice
 import FCA.Model.Fcbo
+import FCA.Model.FcboStack
 import FCA.Model.Defn
 import FCA.Model.Junctors
 import FCA.Model.Misc
 import FCA.Model.Formats
 import FCA.Model.Render
+import FCA.Model.PyLiteral
 /-
 Line protocol driver: one request per line on stdin, one canonical answer per line on stdout.
 See harness/drive.py for the client side.
@@ -97,6 +99,37 @@ def parseStored (s : String) : List Stored :=
     | [e, i, u, l] => ⟨parseNatList e, parseNatList i, parseNatList u, parseNatList l⟩
     | _ => ⟨[], [], [], []⟩
 
+/-! python-literal protocol: int tuples `0+1+2` (`e` = empty tuple), lists of tuples separated by `;` (`_` = empty list),
+lattice entries `a|b|c|d`, `none` = no lattice -/
+def litTupleOfStr (s : String) : List Nat := if s == "e" then [] else (s.splitOn "+").map String.toNat!
+def litStrOfTuple (t : List Nat) : String := if t.isEmpty then "e" else "+".intercalate (t.map toString)
+def litRowsOfStr (s : String) : List (List Nat) := if s == "_" then [] else (s.splitOn ";").map litTupleOfStr
+def litStrOfRows (r : List (List Nat)) : String := if r.isEmpty then "_" else ";".intercalate (r.map litStrOfTuple)
+def litEntryOfStr (s : String) : LitEntry4 :=
+  match s.splitOn "|" with
+  | [a, b, c, d] => (litTupleOfStr a, litTupleOfStr b, litTupleOfStr c, litTupleOfStr d)
+  | _ => ([], [], [], [])
+def litStrOfEntry : LitEntry4 → String
+  | (a, b, c, d) => "|".intercalate [litStrOfTuple a, litStrOfTuple b, litStrOfTuple c, litStrOfTuple d]
+def litLatticeOfStr (s : String) : Option (List LitEntry4) :=
+  if s == "none" then none else if s == "_" then some [] else some ((s.splitOn ";").map litEntryOfStr)
+def litStrOfLattice : Option (List LitEntry4) → String
+  | none => "none"
+  | some [] => "_"
+  | some l => ";".intercalate (l.map litStrOfEntry)
+
+def litRequest : List String → String
+  | ["dump", printable, os, ps, rows, lat] =>
+    let pr : List Nat := if printable == "-" then [] else (printable.splitOn ",").map String.toNat!
+    hexOfStr (dumpLiteral (fun c => pr.contains c) ⟨strListOfHex os, strListOfHex ps, litRowsOfStr rows, litLatticeOfStr lat⟩)
+  | ["load", src] =>
+    match loadLiteral (strOfHex src) with
+    | some d => s!"ok {hexOfStrList d.objects} {hexOfStrList d.properties} {litStrOfRows d.context} {litStrOfLattice d.lattice}"
+    | none => "none"
+  | _ => "bad-request"
+
+
+
 def step (st : St) (line : String) : St × String :=
   match line.splitOn " " with
   | "ctx" :: n :: m :: rows =>
@@ -116,6 +149,8 @@ def step (st : St) (line : String) : St × String :=
   | ["lattice"] => let (st, L) := getLattice st; (st, showLattice L)
   | ["fcbo"] => (st, showPairs (fcbo st.K))
   | ["fcbodual"] => (st, showPairs (fcboDual st.K))
+  | ["fcbostack"] => (st, showPairs (fcboStack st.K))
+  | ["fcbodualstack"] => (st, showPairs (fcboDualStack st.K))
   | ["iterconcepts"] => (st, showPairs (iterconcepts st.K))
   | ["getconcepts"] => (st, showPairs (getConcepts st.K))
   | ["getitem", os, ps, items] =>
@@ -231,6 +266,7 @@ def step (st : St) (line : String) : St × String :=
     | .error e => (st, e.name)
   -- formats
   | "fmt" :: rest => (st, fmtRequest rest)
+  | "lit" :: rest => (st, litRequest rest)
   | _ => (st, "bad-request")
 
 partial def loop (h : IO.FS.Stream) (out : IO.FS.Stream) (st : St) : IO Unit := do
